@@ -84,6 +84,8 @@ func infoFromCell(cell *hrpc.Cell) (hrpc.RegionInfo, error) {
 		return nil, fmt.Errorf("empty value in %q", cell)
 	} else if value[0] != 'P' {
 		return nil, fmt.Errorf("unsupported region info version %d in %q", value[0], cell)
+	} else if len(value) < 4 {
+		return nil, fmt.Errorf("invalid magic number in %q", cell)
 	}
 	const pbufMagic = 1346524486 // 4 bytes: "PBUF"
 	magic := binary.BigEndian.Uint32(value[:4])
